@@ -106,6 +106,21 @@ impl Universe {
         )
     }
 
+    /// Keys of about 17 KB (a common prefix and two digits): the version edit of every flush names
+    /// a smallest and a largest key, so every manifest record is larger than a 32 KiB log block
+    /// and is written as several fragments.
+    pub fn giant(n: usize) -> Self {
+        Universe::from_keys(
+            (1..=n)
+                .map(|i| {
+                    let mut k = vec![b'G'; 17_000 + (i % 3) * 700];
+                    k.extend_from_slice(format!("{:02}", i).as_bytes());
+                    k
+                })
+                .collect(),
+        )
+    }
+
     pub fn n(&self) -> usize {
         self.keys.len()
     }
